@@ -1,7 +1,7 @@
 """C32 — refinement predicate combinators denote set operations: Lean theorems C32_and/or/not/gt/lt/tree on a transcription of
 Predicate::and/or/invert/gt/lt, tied to the Rust constructors by structural correspondence on generated construction trees;
 the implementation's structure is additionally compared semantically with the expression by a Lean-verified exact oracle."""
-from vlib import core
+from vlib import core, predcheck
 
 MANIFEST_ENTRY = {
     "level_claimed": {"category": "proof",
@@ -48,6 +48,14 @@ def post(ctx, rows, res, bindir):
     ctx.cov["input_distribution"] = {"cases": len(rows), "with_bare_variants": raw, "with_boundary_constants": wide, **hist}
 
 
+def shrink(ctx, v, bindir):
+    return predcheck.shrink(ctx, v, bindir, "c32", lambda r: r[3].startswith("viol"))
+
+
+def search_more(ctx, res, proof, bindir):
+    return predcheck.search_more(ctx, bindir, "c32", set())
+
+
 def run(ctx):
     ctx.cov["rule"] = ("construction trees of depth 0..4 over atoms ==,!=,<,<=,>,>= with constants -3..3 (1/8 of the cases: boundary "
                        "pool up to 2^64-1), built through Predicate::and/or/invert/gt/lt (1/5 of the cases mix in bare And/Or/Not "
@@ -55,7 +63,7 @@ def run(ctx):
                        "binary combinator")
     ctx.assumptions = ["one subject variable `I`; right-hand sides are integer constants built as the front end does "
                        "(Nat for c>=0, Int for c<0)"]
-    core.standard_check(ctx, harness_bin="c32", n_quick=4000, n_thorough=60000, nontrivial=nontrivial, post=post,
+    core.standard_check(ctx, harness_bin="c32", n_quick=4000, n_thorough=60000, nontrivial=nontrivial, post=post, shrink=shrink, search_more=search_more,
                         trusted=["Rust-side printer of Predicate (harness/src/predx.rs) and Lean-side reader (Util/PredIO.lean)"])
 
 
